@@ -15,6 +15,7 @@ from typing import Dict, List, Optional, Set
 
 from mdsa.astutil import call_attr, call_recv, kwarg, local_calls, norm, store_targets
 from mdsa.cfg import CFG, walk_local
+from mdsa import match as MM
 from mdsa.loader import AnalysisError, NoFold
 
 from .sem import F
@@ -401,8 +402,45 @@ def _reaches(g: CFG, a: int, b: int) -> bool:
 
 
 # ------------------------------------------------------------------------------------------- R3
+def _yield_filter(ctx, fi):
+    """[(node, filtered?)] for every yield / value return of a function that lists raw entries: an entry is handed on only
+    on paths where `M.is_internal_path(<entry>.name)` was found false"""
+    g = ctx.cfg(fi)
+    ys = [n.idx for n in g.nodes if any(isinstance(x, (ast.Yield, ast.YieldFrom)) for e in n.exprs if e is not None for x in walk_local(e))]
+    rets = [n.idx for n in g.nodes if isinstance(n.stmt, ast.Return) and n.stmt.value is not None]
+    pos = [t.idx for t in g.nodes if t.kind == "test" and norm(t.exprs[0]).startswith("M.is_internal_path(") and norm(t.exprs[0]).endswith(".name)")]
+    out = []
+    for y in ys + rets:
+        ok = any(g.edge_dominates(t, "F", y) for t in pos)
+        if rets and not ys:
+            txt = norm(g.nodes[y].stmt)  # comprehension / filter() form
+            ok = "is_internal_path" in txt and ("if not M.is_internal_path" in txt or "filter(" in txt)
+        out.append((y, ok))
+    return g, out, pos
+
+
+def _filtered_generators(P, ctx, grp) -> Set[str]:
+    """unknown private methods of the group that list the raw entries themselves and pass the same filter rule as items():
+    further filtered primitives other listing methods may be derived from"""
+    from mdsa.inline import load_known
+
+    known = load_known() or set()
+    out = set()
+    for name, fi in grp.methods.items():
+        if fi.qual in known or not name.startswith("_") or name.startswith("__"):
+            continue
+        raw_items = [c for c in local_calls(fi.node) if call_attr(c) in ("items", "keys", "values") and is_raw_expr(c.func.value)]
+        if not raw_items:
+            continue
+        g, ys, pos = _yield_filter(ctx, fi)
+        if ys and all(ok for y, ok in ys):
+            out.add(name)
+    return out
+
+
 def r3_listings(P, rep, ctx):
     grp = P.cls(f"{W}.MetadorGroup")
+    extra_filtered = _filtered_generators(P, ctx, grp)
     for m in LISTING:
         fi = grp.methods.get(m)
         if fi is None:
@@ -414,27 +452,26 @@ def r3_listings(P, rep, ctx):
         rep.check(not touches_raw, "C08.R3", fi.qual, f"{m} is derived from the filtered primitives (does not touch the raw group)", fi.loc(), construct=f"raw access in {m}",
                   message=f"MetadorGroup.{m} reads the raw group directly ({norm(touches_raw[0]) if touches_raw else ''}): reserved entries are not filtered")
         calls = {call_attr(c) for c in local_calls(fi.node) if norm(call_recv(c) or ast.Name(id='')) == "self"} | {"getitem" for x in walk_local(fi.node) if isinstance(x, ast.Subscript) and norm(x.value) == "self"}
-        rep.check(bool(calls & {"items", "keys", "visititems", "values", "get", "getitem"}), "C08.R3", fi.qual, f"{m} uses the wrapper's own filtered methods {sorted(calls)}", fi.loc(),
+        rep.check(bool(calls & ({"items", "keys", "visititems", "values", "get", "getitem"} | extra_filtered)), "C08.R3", fi.qual, f"{m} uses the wrapper's own filtered methods {sorted(calls)}", fi.loc(),
                   construct=f"derivation of {m}", message=f"MetadorGroup.{m} is not derived from items()/keys()/visititems()")
     # items(): every yield under `not is_internal_path(v.name)`
     fi = grp.methods.get("items")
     if fi is None:
         raise AnalysisError("MetadorGroup.items missing")
-    g = ctx.cfg(fi)
-    ys = [n.idx for n in g.nodes if any(isinstance(x, (ast.Yield, ast.YieldFrom)) for e in n.exprs if e is not None for x in walk_local(e))]
-    rets = [n.idx for n in g.nodes if isinstance(n.stmt, ast.Return) and n.stmt.value is not None]
-    if not ys and not rets:
+    g, yl, pos = _yield_filter(ctx, fi)
+    if not yl:
         raise AnalysisError("MetadorGroup.items yields/returns nothing")
-    pos = [t.idx for t in g.nodes if t.kind == "test" and norm(t.exprs[0]).startswith("M.is_internal_path(") and norm(t.exprs[0]).endswith(".name)")]
-    neg = [t.idx for t in g.nodes if t.kind == "test" and norm(t.exprs[0]).startswith("not M.is_internal_path(") and norm(t.exprs[0]).endswith(".name)")]
-    for y in ys + rets:
-        ok = any(g.edge_dominates(t, "F", y) for t in pos) or any(g.edge_dominates(t, "T", y) for t in neg)
-        if rets and not ys:
-            # comprehension / filter() form
-            txt = norm(g.nodes[y].stmt)
-            ok = "is_internal_path" in txt and ("if not M.is_internal_path" in txt or "filter(" in txt)
+    # items() may take its entries from another filtered primitive of the class (then the filter is checked there)
+    itf = F(ctx, fi)
+    derived = [n for n in g.nodes if n.kind == "for" and any(MM.match(f"self.{nm_}()", n.stmt.iter) is not None for nm_ in extra_filtered)]
+    raw_here = [x for x in walk_local(fi.node) if isinstance(x, (ast.Attribute, ast.Subscript)) and is_raw_expr(x) and norm(x) != "self.name"]
+    for y, ok in yl:
+        if not ok and derived and not raw_here:
+            ok = all(itf.hit_before(y, nodes=[d.idx for d in derived]) for _ in [0])
         rep.check(ok, "C08.R3", fi.qual, "items() hands out an entry only if its absolute name is not internal", fi.loc(g.nodes[y].stmt), construct="filter before yield in items",
-                  message="MetadorGroup.items yields entries without the is_internal_path filter: reserved nodes become visible", path=g.path_text(g.find_path(y, avoid=pos + neg)))
+                  message="MetadorGroup.items yields entries without the is_internal_path filter: reserved nodes become visible", path=g.path_text(g.find_path(y, avoid=pos)))
+    for nm_ in sorted(extra_filtered):
+        rep.ok("C08.R3", grp.methods[nm_].qual, f"new private listing helper {nm_} filters internal names like items()", grp.methods[nm_].loc())
     # visititems(): callback only for non-internal nodes
     fi = grp.methods.get("visititems")
     if fi is None:
